@@ -518,9 +518,9 @@ impl<T: ItemT> TableRunner<T> {
                 }
                 expect = Some(if name == "retain" { "()".into() } else { yielded.join(",") });
             }
-            ("drain", 2) | ("into_iter", 1) => {
+            ("drain", 2) | ("into_iter", 1) | ("drain_fold", 1) | ("into_iter_fold", 1) => {
                 let got: Vec<&str> = if ret.is_empty() { vec![] } else { ret.split(',').collect() };
-                let want = std::cmp::min(n(0) as usize, r.len());
+                let want = if name.ends_with("_fold") && n(0) == 0 { r.len() } else { std::cmp::min(n(0) as usize, r.len()) };
                 if got.len() != want {
                     return Some(format!("{} yielded {} elements, expected {}", name, got.len(), want));
                 }
@@ -859,6 +859,32 @@ impl<T: ItemT> TableRunner<T> {
                     crate::exec::check_exact(&d, total - out.0.len());
                     if n(1) == 1 {
                         std::mem::forget(d);
+                    }
+                }
+                quiet();
+                fmt_items(&out.0)
+            }
+            ("drain_fold", 1) | ("into_iter_fold", 1) => {
+                let mut out = QuietVec(Vec::new());
+                let stop = n(0) as usize;
+                let r = std::panic::catch_unwind(std::panic::AssertUnwindSafe(|| {
+                    let eat = |x: T| {
+                        out.0.push(x);
+                        if out.0.len() == stop {
+                            std::panic::panic_any(tape::TapePanic("consumer"));
+                        }
+                    };
+                    if name == "drain_fold" {
+                        m.drain().for_each(eat);
+                    } else {
+                        let old = std::mem::replace(m, new_table());
+                        old.into_iter().for_each(eat);
+                    }
+                }));
+                if let Err(p) = r {
+                    match p.downcast_ref::<tape::TapePanic>() {
+                        Some(tp) if tp.0 == "consumer" => {}
+                        _ => std::panic::resume_unwind(p),
                     }
                 }
                 quiet();
